@@ -107,7 +107,7 @@ impl BatchMaker {
         let tx_ids: Vec<_> = self
             .current_batch
             .iter()
-            .filter(|tx| tx[0] == 0u8 && tx.len() > 8)
+            .filter(|tx| tx.len() > 8 && tx[0] == 0u8)
             .filter_map(|tx| tx[1..9].try_into().ok())
             .collect();
 
